@@ -470,6 +470,14 @@ func monitor(o *c.Out, k *Case) []c.Hit {
 			hits = append(hits, c.Hit{Signature: sig, Demanded: dem, Observed: obs, Case: kk})
 		}
 		o.MonitorChecked(1)
+		if r.Crash != "" {
+			add("crash:pipeline", "every stream is processed", "panic: "+r.Crash+" ("+describeRun(r)+")")
+			continue
+		}
+		if base.Crash != "" && i > 0 {
+			conservation(k, r, add)
+			continue
+		}
 		conservation(k, r, add)
 		if i > 0 {
 			o.MonitorChecked(1)
